@@ -356,7 +356,7 @@ def inject_canary(fn_text, tag):
     return fn_text[:j + 1] + inj + fn_text[j + 1:]
 
 
-def extract_slice(src, masked, fn_path, start_anchor, end_anchor, exact=False):
+def extract_slice(src, masked, fn_path, start_anchor, end_anchor, exact=False, end_last=False):
     s, e, _, _ = find_item(src, masked, fn_path)
     body = src[s:e]
     mb = masked[s:e]
@@ -372,6 +372,6 @@ def extract_slice(src, masked, fn_path, start_anchor, end_anchor, exact=False):
     bpos = [mm.start() for mm in re.finditer(re.escape(end_anchor), body) if mm.start() >= a]
     if not bpos:
         raise ExtractError(f"slice end anchor `{end_anchor}` in `{fn_path}` not found after the start anchor")
-    b = bpos[0] + len(end_anchor)
+    b = (bpos[-1] if end_last else bpos[0]) + len(end_anchor)
     a_line = a if exact else body.rfind("\n", 0, a) + 1
     return s + a_line, s + b
